@@ -316,7 +316,7 @@ def line_dc(rows, sum_, total, c, rr, quantity, is_charge):
         if is_charge and d.get("rate") is not None:
             q = quantity if d.get("quantity") is None else parse(d["quantity"])
             amount = parse(d["rate"]).mul(q)
-        amount = amount.up(c)
+        amount = apply_rr(rr, c, amount)
         total = total.add(amount) if is_charge else total.sub(amount)
         out.append(amount)
     return out, total
@@ -626,9 +626,9 @@ class Gen:
                 r["percent"] = rng.choice(PCT)
                 r["base"] = self.amt(90000, rng.choice([0, 1, 2, 2, 3, 4]), tie=tie)
             else:
-                r["rate"] = self.amt(900, rng.choice([2, 2, 3]) if not self.c03 else min(2, self.c), tie=tie)
+                r["rate"] = self.amt(900, rng.choice([2, 2, 3]), tie=tie)
                 if rng.random() < 0.5:
-                    r["quantity"] = self.amt(50, 1) if not self.c03 else self.amt(50, 0)
+                    r["quantity"] = self.amt(50, 1)
             rows.append(r)
         return rows
 
